@@ -7,6 +7,7 @@ import sys
 
 LAYERS = {
     "store": ("harness.store_adapter", "run_script", "Trace_FimStore", "Trace_FimStore.cfg", "backend"),
+    "topo": ("harness.topo_adapter", "run_script", "Trace_FimTopology", "Trace_FimTopology.cfg", "flavour"),
 }
 
 
